@@ -65,7 +65,127 @@ def units(tier):
                     for lazy in ((False, True) if full else (False,)):
                         out.append((tuple(sorted(cfg.items())), None if cd is None else tuple(sorted(cd.items())),
                                     flags, False, "mixin", lazy, tier, iflags))
+    # a class nested in ITSELF (typing.Self / its own name / its own name in a postponed module): the keyword flags, the
+    # call dialect and the Config options must reach every level of the tree
+    for spelling in SELF_SPELLINGS:
+        for cfg in cfgs:
+            for cd in [None] + _vectors(full):
+                for flags in range(8):
+                    for lazy in ((False, True) if full else ((False, True) if flags in (0, 7) else (False,))):
+                        out.append(("self", spelling, tuple(sorted(cfg.items())), None if cd is None else tuple(sorted(cd.items())),
+                                    flags, lazy, tier))
     return out
+
+
+SELF_SPELLINGS = ("typing.Self", "name", "name-postponed")
+_SELF_SEQ = [0]
+
+
+def _build_self(spelling, cfg, cd, flags, lazy):
+    import sys
+    import types
+    _SELF_SEQ[0] += 1
+    modname = f"vmc_c08_self_{_SELF_SEQ[0]}"
+    ref = "typing.Self" if spelling == "typing.Self" else '"Node"'
+    fl = [n for bit, n in ((1, "TO_DICT_ADD_OMIT_NONE_FLAG"), (2, "TO_DICT_ADD_BY_ALIAS_FLAG"), (4, "ADD_DIALECT_SUPPORT")) if flags & bit]
+    lines = []
+    if spelling == "name-postponed":
+        lines.append("from __future__ import annotations")
+        ref = "Node"
+    lines += ["import typing", "from dataclasses import dataclass, field", "from typing import Dict, List, Optional",
+              "from mashumaro import DataClassDictMixin", "from mashumaro.dialect import Dialect",
+              "from mashumaro.config import (ADD_DIALECT_SUPPORT, TO_DICT_ADD_BY_ALIAS_FLAG, TO_DICT_ADD_OMIT_NONE_FLAG, BaseConfig)"]
+    if cd is not None:
+        lines += ["class CD(Dialect):"] + [f"    {k} = {v!r}" for k, v in cd.items()] + (["    pass"] if not cd else [])
+    lines += ["@dataclass", "class Node(DataClassDictMixin):",
+              "    v: Optional[int] = field(default=None, metadata={'alias': 'v_al'})",
+              "    w: int = 1",
+              f"    nxt: Optional[{ref}] = None",
+              f"    kids: List[{ref}] = field(default_factory=list)",
+              f"    idx: Dict[str, {ref}] = field(default_factory=dict)",
+              "    class Config(BaseConfig):"]
+    lines += [f"        {k} = {v!r}" for k, v in cfg.items()]
+    lines += [f"        code_generation_options = [{', '.join(fl)}]", f"        lazy_compilation = {lazy!r}",
+              "        aliases = {'kids': 'kids_al'}"]
+    if cd is not None:
+        lines.append("        dialect = CD")
+    mod = types.ModuleType(modname)
+    sys.modules[modname] = mod
+    exec(compile("\n".join(lines) + "\n", f"<{modname}>", "exec"), mod.__dict__)
+    return mod, modname
+
+
+def _self_project(node, on, od, ba):
+    items = [("v", "v_al", node.v, None, node.v), ("w", None, node.w, 1, node.w),
+             ("nxt", None, node.nxt, None, None if node.nxt is None else _self_project(node.nxt, on, od, ba)),
+             ("kids", "kids_al", node.kids, [], [_self_project(k, on, od, ba) for k in node.kids]),
+             ("idx", None, node.idx, {}, {k: _self_project(x, on, od, ba) for k, x in node.idx.items()})]
+    return project(items, on, od, ba, False)
+
+
+def _self_trees(N):
+    leaf = lambda: N()                                  # every field at its default
+    leaf2 = lambda: N(v=3, w=2)
+    return [N(), N(v=1), N(nxt=leaf()), N(v=1, nxt=N(nxt=leaf2())), N(kids=[leaf(), leaf2()]), N(idx={"k": leaf()}),
+            N(v=2, w=5, nxt=N(v=None, kids=[N(idx={"a": leaf2(), "b": leaf()})]), kids=[N(nxt=leaf())], idx={"z": N(kids=[leaf()])})]
+
+
+def run_self_unit(unit, only=None):
+    import sys
+    from mashumaro.dialect import Dialect
+    _, spelling, cfg_t, cd_t, flags, lazy, tier = unit
+    cfg, cd = dict(cfg_t), (None if cd_t is None else dict(cd_t))
+    res = core.UnitResult()
+    mod, modname = _build_self(spelling, cfg, cd, flags, lazy)
+    try:
+        N = mod.Node
+        res.transitions += 1
+        call_dialects = [None]
+        # the interplay keyword-flag default x call dialect is the open finding F-KWFLAG-MASKS-CALL-DIALECT, judged by the
+        # main units with its deviation model: call dialects are used here only without keyword flags
+        if flags == 4:
+            call_dialects += _vectors(tier == "thorough")
+        kw_opts = [{}]
+        if flags & 1:
+            kw_opts = kw_opts + [dict(k, omit_none=v) for k in kw_opts for v in (False, True)]
+        if flags & 2:
+            kw_opts = kw_opts + [dict(k, by_alias=v) for k in kw_opts for v in (False, True)]
+        for di, calld in enumerate(call_dialects):
+            dobj = None if calld is None else type(f"Call{di}", (Dialect,), dict(calld))
+            for kwi, kw in enumerate(kw_opts):
+                sources = [calld, cd, cfg]
+                on = kw["omit_none"] if "omit_none" in kw else eff(sources, "omit_none")
+                ba = kw["by_alias"] if "by_alias" in kw else eff(sources, "serialize_by_alias")
+                od = eff(sources, "omit_default")
+                kwargs = dict(kw)
+                if dobj is not None:
+                    kwargs["dialect"] = dobj
+                for ii, inst in enumerate(_self_trees(N)):
+                    if only is not None and only != (di, kwi, ii):
+                        continue
+                    exp = _self_project(inst, on, od, ba)
+                    res.cases += 1
+                    res.transitions += 1
+                    try:
+                        got = inst.to_dict(**kwargs)
+                        oc = "ok"
+                    except Exception as e:   # noqa: BLE001
+                        got = ("EXC", type(e).__name__, str(e)[:200])
+                        oc = "exc:" + type(e).__name__
+                    good = isinstance(got, dict) and got == exp and _deep_order(got, exp)
+                    if not good:
+                        res.outcomes["neq" if oc == "ok" else oc] += 1
+                        res.violation(f"self-project-neq|{spelling}|{cfg_t}|{cd_t}|{flags}|{lazy}|{sorted(kw.items())}|{calld}",
+                                      "project-neq", oc, dict(unit=unit, call=(di, kwi, ii), kw=kw, call_dialect=calld, facts={}),
+                                      f"spelling={spelling} instance={inst!r:.200} expected={exp!r:.300} got={got!r:.300}")
+                    else:
+                        res.outcomes["ok"] += 1
+                        if ii >= 2 and (on or od or ba):
+                            res.nontrivial += 1
+    finally:
+        sys.modules.pop(modname, None)
+    res.states += 1
+    return res
 
 
 def eff(sources, name):
@@ -167,6 +287,8 @@ def _inner_vals(Inner):
 
 def run_unit(unit, only=None):
     from mashumaro.dialect import Dialect
+    if unit[0] == "self":
+        return run_self_unit(unit, only)
     cfg_t, cd_t, flags, sk, inner_kind, lazy, tier = unit[:7]
     iflags = unit[7] if len(unit) > 7 else None
     cfg = dict(cfg_t)
@@ -274,5 +396,4 @@ def _deep_order(a, b):
 
 def replay(case):
     unit = tuple(core.detuple(case["unit"]))
-    cfg_t, cd_t = unit[0], unit[1]
     return run_unit(unit, only=tuple(case["call"])).violations
